@@ -174,6 +174,45 @@ func processRule(ruleId string, chainOffset uint8, dataFilePath string, ctxt *pr
 	updateRegex(ruleFilePath, ruleId, chainOffset, regex)
 }
 
+var ruleCommentLineRegex = regexp.MustCompile(`^\s*#`)
+var ruleIdActionRegex = regexp.MustCompile(`\bid:\d`)
+
+// findRegexLine returns the index of the `SecRule` line that carries the regular
+// expression of the rule (chainOffset 0) or of its chainOffset-th chained rule.
+// The rule is identified by its `id` action, which CRS writes on the line after the
+// `SecRule` line. Comments are ignored. The search fails when the rule does not exist
+// or its chain is shorter than chainOffset.
+func findRegexLine(lines [][]byte, ruleId string, chainOffset uint8) (int, bool) {
+	idRegex := regexp.MustCompile(fmt.Sprintf(`\bid:%s\b`, ruleId))
+	foundRule := false
+	chainCount := uint8(0)
+	for index, line := range lines {
+		if ruleCommentLineRegex.Match(line) {
+			continue
+		}
+		if !foundRule {
+			if idRegex.Match(line) {
+				foundRule = true
+				if chainOffset == 0 {
+					return index - 1, index > 0
+				}
+			}
+			continue
+		}
+		if regex.SecRuleRegex.Match(line) {
+			// a SecRule with an id of its own starts the next rule: the chain has ended
+			if index+1 < len(lines) && ruleIdActionRegex.Match(lines[index+1]) {
+				return 0, false
+			}
+			chainCount++
+			if chainCount == chainOffset {
+				return index, true
+			}
+		}
+	}
+	return 0, false
+}
+
 func updateRegex(filePath string, ruleId string, chainOffset uint8, newRegex string) {
 	contents, err := os.ReadFile(filePath)
 	if err != nil {
@@ -182,28 +221,8 @@ func updateRegex(filePath string, ruleId string, chainOffset uint8, newRegex str
 
 	lines := bytes.Split(contents, []byte("\n"))
 
-	idRegex := regexp.MustCompile(fmt.Sprintf("id:%s", ruleId))
-	index := 0
-	var line []byte
-	foundRule := false
-	chainCount := uint8(0)
-	for index, line = range lines {
-		if !foundRule && idRegex.Match(line) {
-			foundRule = true
-			if chainOffset == 0 {
-				index--
-				break
-			}
-			continue
-		}
-		if foundRule && regex.SecRuleRegex.Match(line) {
-			chainCount++
-		}
-		if foundRule && chainCount == chainOffset {
-			break
-		}
-	}
-	if !foundRule || chainOffset != chainCount {
+	index, foundRule := findRegexLine(lines, ruleId, chainOffset)
+	if !foundRule {
 		logger.Fatal().Msgf("Failed to find rule %s, chain offset, %d in %s", ruleId, chainOffset, filePath)
 	}
 
